@@ -469,6 +469,13 @@ func (u *Unit) ptrLoad(env *Env, p Term, elem types.Type) Term {
 func (u *Unit) ptrStore(env *Env, p Term, elem types.Type, v Term) {
 	if si := u.maybeStruct(elem); si != nil {
 		for i, f := range si.Fields {
+			if typeNameOf(f.Ty) == "AtomBool" {
+				// AtomBool fields live in their own boolean cell heap (see atomBoolCall); a stored struct value has them zero
+				hn := "AB_" + si.GoName + "_" + f.Name
+				h := u.heap(env, hn, ArrS(SRef, SBool))
+				u.setHeap(env, hn, Store(h, p, False))
+				continue
+			}
 			name := fieldHeapName(si, f.Name)
 			h := u.heap(env, name, ArrS(SRef, f.Sort))
 			u.setHeap(env, name, u.define(env, "h_"+name, Store(h, p, u.getField(si, v, i))))
@@ -533,18 +540,32 @@ func (u *Unit) lockGuardCheck(env *Env, x *ast.SelectorExpr, write bool) {
 	if u.Block == nil || u.Block.Opts["lockguard"] == "" || u.inSpec {
 		return
 	}
-	parts := strings.SplitN(u.Block.Opts["lockguard"], ":", 2)
-	if len(parts) != 2 || x.Sel.Name != parts[0] {
-		return
+	// "opt decide-under=<flag field>:<lock>": a read of the flag while the lock is held is remembered until the lock is released;
+	// writes to guarded fields must be preceded by such a read (check-then-act inside one critical section)
+	var decideKey string
+	if d := strings.SplitN(u.Block.Opts["decide-under"], ":", 2); len(d) == 2 {
+		decideKey = "decided:" + u.exprText(x.X) + "." + d[0] + "@" + u.exprText(x.X) + "." + d[1]
+		if x.Sel.Name == d[0] && env.held[u.exprText(x.X)+"."+d[1]] != "" {
+			env.held[decideKey] = "D"
+		}
 	}
-	key := u.exprText(x.X) + "." + parts[1]
-	mode := env.held[key]
-	ok := mode == "W" || (!write && mode == "R")
-	what := "read"
-	if write {
-		what = "write"
+	for _, ent := range strings.Split(u.Block.Opts["lockguard"], ";") {
+		parts := strings.SplitN(strings.TrimSpace(ent), ":", 2)
+		if len(parts) != 2 || x.Sel.Name != parts[0] {
+			continue
+		}
+		key := u.exprText(x.X) + "." + parts[1]
+		mode := env.held[key]
+		ok := mode == "W" || (!write && mode == "R")
+		what := "read"
+		if write {
+			what = "write"
+		}
+		u.assert(env, fmt.Sprintf("perm/guarded-%s/%s", what, u.exprText(x)), "perm", x.Pos(), what+" of "+u.exprText(x)+" requires "+key+" to be held", boolTerm(ok))
+		if write && decideKey != "" {
+			u.assert(env, fmt.Sprintf("perm/decided-under-lock/%s", u.exprText(x)), "perm", x.Pos(), "write of "+u.exprText(x)+" must follow a read of the "+u.Block.Opts["decide-under"]+" flag in the same critical section", boolTerm(env.held[decideKey] != ""))
+		}
 	}
-	u.assert(env, fmt.Sprintf("perm/guarded-%s/%s", what, u.exprText(x)), "perm", x.Pos(), what+" of "+u.exprText(x)+" requires "+key+" to be held", boolTerm(ok))
 }
 
 // follow a field path (embedded fields included)
@@ -556,6 +577,12 @@ func (u *Unit) fieldPath(base Value, path []int, env *Env, at ast.Node) Value {
 			si := u.structOf(p.Elem())
 			f := si.Fields[idx]
 			u.safety(env, "nil", at.Pos(), u.exprText(at), Not(Same(cur.Term, Term{"nil_Ref", SRef})))
+			if typeNameOf(f.Ty) == "AtomBool" && u.inSpec {
+				// in specifications x.flagField (an AtomBool) denotes the boolean it holds
+				h := u.heap(env, "AB_"+typeNameOf(cur.Ty)+"_"+f.Name, ArrS(SRef, SBool))
+				cur = Value{Select(h, cur.Term), types.Typ[types.Bool]}
+				continue
+			}
 			h := u.heap(env, fieldHeapName(si, f.Name), ArrS(SRef, f.Sort))
 			v := Select(h, cur.Term)
 			u.knownRefsOf(env, v)
